@@ -4,3 +4,5 @@ import D3.Properties.C20
 #print axioms D3.C20.empty_tree_no_read
 #print axioms D3.C20.empty_other_tree_no_read
 #print axioms D3.C20.insert_assert_never_fires
+#print axioms D3.C20.typed_signatures_ok
+#print axioms D3.C20.insert_index_safe
